@@ -78,7 +78,9 @@ def gen_cases(rng, tier):
     early = [c for c in src if re.search(r"resp:1[1-9]\d:(\w+):.*resp:2\d\d:\1:", c[4])]
     direct = [c for c in src if c not in early]
     pick = early[:40] + direct[:20] if tier == "quick" else src
-    for k, c in enumerate(pick):
+    # forks: several dialogs out of one INVITE, each addresses its own peer (To-tag, Contact, route set of its own response)
+    forks = [P13._case("fk%d" % j, h, rng) for j, h in enumerate((["180:a", "200:b"], ["200:a", "200:b"], ["183:a", "180:b", "200:b", "200:a"], ["180:b", "180:a", "200:a", "200:b", "200:c"]))]
+    for k, c in enumerate(pick + forks):
         cases.append(["uc%d" % k, "c11", "ua", c[2], c[3] + ";probe", c[4], c[5]])
     # the ACK for the 2xx of a session refresh (the only ACK the library builds inside a dialog): it carries the re-INVITE's number,
     # also when the application created other requests in the dialog between the re-INVITE and its answer
@@ -135,8 +137,10 @@ def _ua_oracle(case, impl):
         if any(a != reinv[-1] for a in acks):
             return ["the ACK for the 2xx of the refresh re-INVITE carries CSeq %s, the re-INVITE had %s" % (acks, reinv[-1])]
     # caller side: the request created inside the new dialog goes to the Contact of the peer's response along the reversed Record-Route
-    for m in re.finditer(r"probe:(\w+):uri=([^/]*)/route=(\S*?)@\d+", impl):
-        tag, uri, route = m.groups()
+    for m in re.finditer(r"probe:(\w+):uri=([^/]*)/route=(\S*?)/totag=(\S*?)@\d+", impl):
+        tag, uri, route, totag = m.groups()
+        if totag != tag:
+            return ["a request created in the caller's dialog with %s carries To-tag %r: the remote tag of a dialog is the To-tag of the response that created it" % (tag, totag)]
         ok = set()
         for st in [x for x in case[5].split(",") if x]:
             a = st.split(":")
